@@ -679,6 +679,15 @@ func runTwin(x *Exec, prop string) {
 					if !compareAll("after vacuum") {
 						return
 					}
+					if blind != nil {
+						// The vacuum may have purged delete markers. A writer that still holds the deleted rows
+						// and has not refreshed since brings them back by design (the marker is what would have
+						// stopped it): from here on the blind writer is blind only to what happens after the vacuum.
+						if _, err := blind.Query("select s3db_refresh(?)", bt); err != nil {
+							fail("-unexpected-error", "blind writer refresh after vacuum: %v", err)
+							return
+						}
+					}
 				}
 			}
 			if inTxn {
